@@ -28,6 +28,11 @@
 (*   COMP  u = unwrap_kiwi_future(plum_to_kiwi_future(g1))                                         *)
 (*   CONV  u = unwrap_kiwi_future(convert_to_comm(coro)(comm)) = unwrap(p2k(create_task(coro)))    *)
 (*   RPC   K = process._schedule_rpc(cb)           cb: return v | raise e | return action future g1*)
+(*   BCF   k = convert_to_comm(BroadcastFilter(cb))(comm, body, sender, subject, id): a broadcast   *)
+(*         the filter rejects (flt) is answered at once with a resolved future and nothing is        *)
+(*         scheduled; one it lets through runs cb as a task.  kw: the communicator passes sender and  *)
+(*         subject by keyword (kiwipy.LocalCommunicator) or by position (RmqCommunicator) - which     *)
+(*         makes no difference                                                                        *)
 (*   ACT   A = CancellableAction(fn), histories of run()/cancel() of length <= MaxOps              *)
 (***************************************************************************************************)
 EXTENDS Naturals, Sequences, FiniteSets, TLC
@@ -244,6 +249,9 @@ Build(scn) ==
                                k == PlumToKiwi(c.s, c.id)
                            IN UnwrapKiwi(k.s, k.id)
     [] scn.fam = "RPC"  -> ScheduleRpc(Chain("loop", scn.d), scn.kind, Head1(scn))
+    [] scn.fam = "BCF"  -> IF scn.flt
+                           THEN [s |-> [E0 EXCEPT !.f = <<[NewFut("kiwi", "out") EXCEPT !.st = "result", !.val = NoVal]>>], id |-> 1]
+                           ELSE LET c == CreateTask(E0, scn.kind, 0) IN PlumToKiwi(c.s, c.id)
     [] scn.fam = "ACT"  -> [s |-> [E0 EXCEPT !.f = <<[NewFut("loop", "action") EXCEPT !.cbs = <<Cb("obs", 0, 0)>>]>>], id |-> 1]
 
 St == [f |-> futs, ready |-> ready, tasks |-> tasks, errs |-> errs, klog |-> klog, calls |-> calls, notes |-> notes, dev |-> dev]
@@ -297,7 +305,8 @@ Deep(F, i)    == IF F[i].st = "result" /\ F[i].val.t = "fut" THEN Deep(F, F[i].v
 
 \* the outcome of the innermost computation
 Expected ==
-  CASE sc.kind = "ret"   -> [st |-> "result", val |-> V(RetVal)]
+  CASE sc.fam = "BCF" /\ sc.flt -> [st |-> "result", val |-> NoVal]      \* filtered: answered with None, whoever asks and however
+    [] sc.kind = "ret"   -> [st |-> "result", val |-> V(RetVal)]
     [] sc.kind = "raise" -> [st |-> "exception", val |-> X(RaiseEx)]
     [] sc.fam = "CT"     -> Shallow(futs, 1)        \* create_task alone: the coroutine's own outcome (a future stays a future)
     [] OTHER             -> Deep(futs, 1)
@@ -313,6 +322,8 @@ ExactlyOnce == ~Excused => /\ errs = <<>> /\ klog = <<>>
                            /\ \A t \in 1..Len(tasks) : tasks[t].st # "exception"
                            /\ notes <= 1
                            /\ calls <= 1
+\* a filtered broadcast never reaches the callback and schedules nothing
+FilteredIsSilent == (sc.fam = "BCF" /\ sc.flt) => (calls = 0 /\ tasks = <<>> /\ ready = <<>>)
 \* an outcome, once there, never changes
 Stable == [][\A i \in 1..Len(futs) : futs[i].st # "pending" => (futs'[i].st = futs[i].st /\ futs'[i].val = futs[i].val)]_vars
 
